@@ -6,6 +6,7 @@ W=/tmp/trymut-repo-$$
 git -C /repo worktree add --detach $W HEAD -q || exit 9
 ( cd $W && git apply "$PATCH" ) || { echo "patch does not apply"; git -C /repo worktree remove --force $W; exit 9; }
 mkdir -p /tmp/trymut-evid-$$
-cd /verif && VERIF_REPO=$W VERIF_EVID=/tmp/trymut-evid-$$ ./check $P $TIER > /tmp/trymut-$P.log 2>&1; rc=$?
-git -C /repo worktree remove --force $W; rm -rf /tmp/trymut-evid-$$
-echo "rc=$rc"; grep -E "^(VIOLATION|INCONCLUSIVE|HELD)" /tmp/trymut-$P.log | head -5; grep -E "^FAIL" /tmp/trymut-$P.log | cut -c1-300 | head -3
+cd /verif && VERIF_REPO=$W VERIF_EVID=/tmp/trymut-evid-$$ ./check $P $TIER > /tmp/trymut-$P-$$.log 2>&1; rc=$?
+git -C /repo worktree remove --force $W; rm -rf /tmp/trymut-evid-$$ /verif/.build-alt-$(echo $W | sed 's/[^A-Za-z0-9]/_/g')
+echo "rc=$rc"; grep -E "^(VIOLATION|INCONCLUSIVE|HELD)" /tmp/trymut-$P-$$.log | head -5; grep -E "^FAIL" /tmp/trymut-$P-$$.log | cut -c1-300 | head -3
+cp /tmp/trymut-$P-$$.log /tmp/trymut-$P.log; rm -f /tmp/trymut-$P-$$.log
